@@ -29,6 +29,7 @@ CONSTANTS NW,        \* number of workers
           MaxTick,   \* the clock never exceeds this
           MaxPid,    \* process ids are 0..MaxPid-1
           MaxFuel,   \* largest number of script operations attempted in one slice
+          Lines,     \* REPL session: the entry scripts of its lines, in order (<<1>> = a single program)
           Placement, \* "mod": pid % NW as the code does; "any": every placement
           Defects,   \* subset of DefectNames: pre-fix behaviours switched on
           IOModes    \* how the effect backend answers: "now" (immediate completion) and/or "later" (the completion
@@ -629,7 +630,8 @@ InitState(entry) ==
             sent |-> [p \in Pids |-> [q \in Pids |-> <<>>]],
             selects |-> <<>>, spawns |-> <<>>, updates |-> <<>>,
             envGot |-> [p \in Pids |-> {}],
-            minted |-> <<>>, backend |-> <<>>]]
+            minted |-> <<>>, backend |-> <<>>,
+            line |-> 1, outcomes |-> <<>>]]     \* host side: lines submitted so far, outcomes of the earlier lines
 
 Init ==
   LET I == InitState(1) IN
@@ -639,9 +641,29 @@ Init ==
   /\ pending = I.pending /\ now = I.now /\ outcome = I.outcome /\ obs = I.obs
   /\ effecting = I.effecting /\ nextRef = I.nextRef /\ owner = I.owner /\ backend = I.backend
 
+(***************************************************************************)
+(* The host submits the next line of the session (repl.rs evaluate): it    *)
+(* may do so as soon as the previous line's result has reached it -- the   *)
+(* processes that line spawned may still be running, messages may still be *)
+(* in flight.  The persistent process is resumed with the new line's code  *)
+(* (its variables = registers, its mailbox and its pid survive) and the    *)
+(* result is requested again.  (compact / UpdateProgram / keep-sets only   *)
+(* concern locals and code tables, which scripts abstract.)                *)
+(***************************************************************************)
+SubmitLine(entry) ==
+  /\ outcome # None
+  /\ cmdQ' = [cmdQ EXCEPT ![router[0]] = @ \o <<[t |-> "ResumeProcess", id |-> 0, script |-> entry],
+                                                 [t |-> "GetResult", p |-> 0]>>]
+  /\ outcome' = None
+  /\ obs' = [obs EXCEPT !.line = @ + 1, !.outcomes = Append(@, outcome[1])]
+  /\ UNCHANGED <<evtQ, runq, spawning, selecting, awaited, awaitersFor, resultReq, effecting, nextRef, owner,
+                 backend, proc, router, nextPid, pending, now>>
+
+NextLine == obs.line < Len(Lines) /\ SubmitLine(Lines[obs.line + 1])
+
 WorkerAct == \E w \in Workers : \E k \in 0..Len(cmdQ[w]), fuel \in 0..MaxFuel : WorkerStep(w, k, fuel)
 EnvAct == \E w \in Workers : EnvHandle(w)
-Next == WorkerAct \/ EnvAct \/ EnvCompletions \/ Tick(1)
+Next == WorkerAct \/ EnvAct \/ EnvCompletions \/ Tick(1) \/ NextLine
 
 Spec == Init /\ [][Next]_vars
 =============================================================================
